@@ -415,3 +415,165 @@ Proof.
 Qed.
 
 End Conservation.
+
+(* ------------------------------------------------------------------ prompt return once a winner exists *)
+Section Prompt.
+Variable c : rcfg.
+Hypothesis ids_distinct : NoDup (map a_id (c_addrs c)).
+Hypothesis nonempty : c_addrs c <> [].
+
+(* task steps that need nothing from the environment: no connect outcome, no timer, no caller cancellation *)
+Definition internal (l : label) : bool :=
+  match l with
+  | LHostCancel | LHostFinish _ | LChildSkip _ | LConnCancel _ => true
+  | _ => false
+  end.
+
+(* after the task group has cancelled its children none of them is left un-cancelled *)
+Definition Inv5 (s : rstate) : Prop :=
+  r_host s = HAbort -> forall j t, nth_error (r_att s) j = Some t -> t <> TNew false /\ t <> TConn false.
+
+Lemma upd_fin_inv5 (att : list tstate) i :
+  (forall j t, nth_error att j = Some t -> t <> TNew false /\ t <> TConn false) ->
+  forall j t, nth_error (upd att i TFin) j = Some t -> t <> TNew false /\ t <> TConn false.
+Proof.
+  intros H j t Hn. destruct (Nat.eq_dec i j) as [->|N].
+  - destruct (nth_error att j) eqn:E.
+    + rewrite upd_same in Hn by (apply nth_error_Some; rewrite E; discriminate). inversion Hn. split; discriminate.
+    + assert (length att <= j) by (apply nth_error_None; exact E).
+      assert (nth_error (upd att j TFin) j = None) by (apply nth_error_None; rewrite upd_length; lia). congruence.
+  - rewrite upd_other in Hn by exact N. eapply H; eauto.
+Qed.
+
+Lemma child_finish_host_att s i o op cr :
+  r_host (child_finish s i o op cr) = r_host s /\ r_att (child_finish s i o op cr) = upd (r_att s) i TFin.
+Proof. unfold child_finish. destruct o; [destruct (r_winner s)| | |]; simpl; auto. Qed.
+
+Lemma step_inv5 s l s' : Inv5 s -> step c s l = Some s' -> Inv5 s'.
+Proof.
+  intros I5 H. unfold Inv5 in *.
+  destruct l as [ | timer | | swallow | i | i | i | i | i | i | ]; unfold step in H.
+  - destruct (r_host s); try discriminate. destruct (r_caller s); [discriminate|]. injection H as <-.
+    unfold spawn_next. destruct (_ <? _); simpl; discriminate.
+  - destruct (r_host s); try discriminate.
+    match type of H with (if ?b then _ else _) = _ => destruct b end; [|discriminate]. injection H as <-.
+    unfold spawn_next. destruct (_ <? _); simpl; discriminate.
+  - destruct (pending_cancel s); [|discriminate]. destruct (r_host s); try discriminate; injection H as <-; simpl; try discriminate;
+      (intros _ j t Hn; rewrite nth_error_map in Hn; destruct (nth_error (r_att s) j) as [t0|]; [|discriminate];
+       inversion Hn; destruct t0; simpl; split; discriminate).
+  - destruct (all_children_done s); [|discriminate].
+    destruct (r_host s); try discriminate;
+      repeat match type of H with
+             | (if ?b then _ else _) = _ => destruct b
+             | match ?b with _ => _ end = _ => destruct b
+             end; try discriminate; injection H as <-; simpl; discriminate.
+  - destruct (nth_error (r_att s) i) as [[|[]| |]|] eqn:Et; try discriminate.
+    destruct (nth_error (c_addrs c) i) as [a|]; [|discriminate].
+    destruct (cc_advance (c_locals c) [a] 0 (r_open s)) as [[cur rest errs | o] op]; injection H as <-.
+    + simpl. intro Hh. exfalso. destruct (I5 Hh _ _ Et) as [K _]. apply K; reflexivity.
+    + destruct (child_finish_host_att s i o op (if a_create a then r_created s ++ [a_id a] else r_created s)) as [-> ->].
+      intro Hh. apply upd_fin_inv5. apply I5; exact Hh.
+  - destruct (nth_error (r_att s) i) as [[|[]| |]|] eqn:Et; try discriminate. injection H as <-. simpl.
+    intro Hh. apply upd_fin_inv5. apply I5; exact Hh.
+  - destruct (nth_error (r_att s) i) as [[| |[]|]|]; try discriminate.
+    unfold child_resume in H. destruct (nth_error (c_addrs c) i) as [a|]; [|discriminate].
+    destruct (cc_resume _ _ _ _ _ _) as [[cur rest errs | o] op]; [discriminate|]. injection H as <-.
+    destruct (child_finish_host_att s i o op (r_created s)) as [-> ->]. intro Hh. apply upd_fin_inv5. apply I5; exact Hh.
+  - destruct (nth_error (r_att s) i) as [[| |[]|]|]; try discriminate.
+    unfold child_resume in H. destruct (nth_error (c_addrs c) i) as [a|]; [|discriminate].
+    destruct (cc_resume _ _ _ _ _ _) as [[cur rest errs | o] op]; [discriminate|]. injection H as <-.
+    destruct (child_finish_host_att s i o op (r_created s)) as [-> ->]. intro Hh. apply upd_fin_inv5. apply I5; exact Hh.
+  - destruct (nth_error (r_att s) i) as [[| |[]|]|]; try discriminate.
+    unfold child_resume in H. destruct (nth_error (c_addrs c) i) as [a|]; [|discriminate].
+    destruct (cc_resume _ _ _ _ _ _) as [[cur rest errs | o] op]; [discriminate|]. injection H as <-.
+    destruct (child_finish_host_att s i o op (r_created s)) as [-> ->]. intro Hh. apply upd_fin_inv5. apply I5; exact Hh.
+  - destruct (nth_error (r_att s) i) as [[| |[]|]|]; try discriminate.
+    unfold child_resume in H. destruct (nth_error (c_addrs c) i) as [a|]; [|discriminate].
+    destruct (cc_resume _ _ _ _ _ _) as [[cur rest errs | o] op]; [discriminate|]. injection H as <-.
+    destruct (child_finish_host_att s i o op (r_created s)) as [-> ->]. intro Hh. apply upd_fin_inv5. apply I5; exact Hh.
+  - destruct (r_host s) eqn:Eh; try discriminate; injection H as <-; simpl; try discriminate. intros _. apply I5. reflexivity.
+Qed.
+
+Lemma exec_inv5 : forall tr s s', Inv5 s -> exec c s tr = Some s' -> Inv5 s'.
+Proof.
+  induction tr as [|l tr IH]; intros s s' I H; simpl in H.
+  - inversion H; subst; exact I.
+  - destruct (step c s l) as [s1|] eqn:E; [|discriminate]. eapply IH; [eapply step_inv5; eauto | exact H].
+Qed.
+
+(* the scope has been cancelled (a winner exists) or the task group is aborting: an internal step is enabled *)
+Lemma progress_internal s : Inv c s -> Inv2 s -> Inv5 s -> r_result s = None ->
+  (r_scope s = true \/ r_host s = HAbort) -> exists l, internal l = true /\ step c s l <> None.
+Proof.
+  intros I I2 I5 Hr Hsc.
+  assert (Hp : r_host s <> HAbort -> pending_cancel s = true).
+  { intros Hne. destruct Hsc as [Hs | Hh]; [unfold pending_cancel; rewrite Hs; reflexivity | exfalso; apply Hne; exact Hh]. }
+  destruct (r_host s) eqn:Eh.
+  - exists LHostCancel. split; [reflexivity|]. simpl. rewrite Hp, Eh by discriminate. discriminate.
+  - exists LHostCancel. split; [reflexivity|]. simpl. rewrite Hp, Eh by discriminate. discriminate.
+  - exists LHostCancel. split; [reflexivity|]. simpl. rewrite Hp, Eh by discriminate. discriminate.
+  - destruct (all_children_done s) eqn:Hall.
+    + pose proof (I2 Eh) as Hpc. unfold pending_cancel in Hpc.
+      destruct (r_crashed s) eqn:Ec.
+      * exists (LHostFinish false). split; [reflexivity|]. simpl. rewrite Hall, Eh, Ec. discriminate.
+      * destruct (r_scope s) eqn:Es.
+        -- exists (LHostFinish true). split; [reflexivity|]. simpl. rewrite Hall, Eh, Ec, Es. destruct (r_winner s); discriminate.
+        -- destruct (r_caller s) eqn:Eca; [|discriminate].
+           exists (LHostFinish false). split; [reflexivity|]. simpl. rewrite Hall, Eh, Ec, Eca. discriminate.
+    + destruct (find_active _ Hall) as (i & t & A & B).
+      assert (Hi : i < length (c_addrs c)) by (rewrite <- (i_len c s I); apply nth_error_Some; rewrite A; discriminate).
+      destruct (nth_error (c_addrs c) i) as [a|] eqn:Ha; [| apply nth_error_None in Ha; lia].
+      destruct (I5 Eh _ _ A) as [N1 N2].
+      destruct t as [|[]|[]|]; try discriminate; try (exfalso; auto; fail).
+      * exists (LChildSkip i). split; [reflexivity|]. simpl. rewrite A. discriminate.
+      * exists (LConnCancel i). split; [reflexivity|]. simpl. rewrite A. unfold child_resume. rewrite Ha. simpl. discriminate.
+  - exfalso. assert (r_result s <> None) by (apply (i_done c s I); exact Eh). congruence.
+Qed.
+
+Lemma internal_not_cancel l : internal l = true -> is_cancel l = false.
+Proof. destruct l; simpl; auto; discriminate. Qed.
+
+Lemma scope_or_abort_step s l s' : step c s l = Some s' -> internal l = true ->
+  (r_scope s = true \/ r_host s = HAbort) -> r_result s' = None -> (r_scope s' = true \/ r_host s' = HAbort).
+Proof.
+  intros H Hl Hs Hr. destruct l; try discriminate; unfold step in H.
+  - destruct (pending_cancel s); [|discriminate]. destruct (r_host s); try discriminate; injection H as <-; simpl in *; auto; discriminate.
+  - destruct (all_children_done s); [|discriminate].
+    destruct (r_host s); try discriminate;
+      repeat match type of H with
+             | (if ?b then _ else _) = _ => destruct b
+             | match ?b with _ => _ end = _ => destruct b
+             end; try discriminate; injection H as <-; simpl in Hr; discriminate.
+  - destruct (nth_error (r_att s) i) as [[|[]| |]|]; try discriminate. injection H as <-. simpl. exact Hs.
+  - destruct (nth_error (r_att s) i) as [[| |[]|]|]; try discriminate.
+    unfold child_resume in H. destruct (nth_error (c_addrs c) i); [|discriminate]. simpl in H. injection H as <-. simpl. exact Hs.
+Qed.
+
+(* prompt return: from any reachable state in which a winner has been elected (or the group is aborting) a result is
+   reached by internal steps alone, at most mu of them *)
+Lemma returns_promptly : forall n s, Inv c s -> Inv2 s -> Inv5 s -> mu c s <= n ->
+  (r_scope s = true \/ r_host s = HAbort) ->
+  exists tr s', exec c s tr = Some s' /\ r_result s' <> None /\ length tr <= mu c s /\ forallb internal tr = true.
+Proof.
+  induction n as [|n IH]; intros s I I2 I5 Hn Hs.
+  - destruct (r_result s) eqn:Er.
+    + exists [], s. simpl. repeat split; auto; try lia. congruence.
+    + destruct (progress_internal s I I2 I5 Er Hs) as (l & Hl & Hst). destruct (step c s l) as [s1|] eqn:E; [|exfalso; auto].
+      pose proof (step_mu c s l s1 I E (internal_not_cancel l Hl)). lia.
+  - destruct (r_result s) eqn:Er.
+    + exists [], s. simpl. repeat split; auto; try lia. congruence.
+    + destruct (progress_internal s I I2 I5 Er Hs) as (l & Hl & Hst). destruct (step c s l) as [s1|] eqn:E; [|exfalso; auto].
+      pose proof (step_mu c s l s1 I E (internal_not_cancel l Hl)) as Hmu.
+      assert (I1 : Inv c s1) by (eapply step_inv; eauto).
+      assert (I21 : Inv2 s1) by (eapply step_inv2; eauto).
+      assert (I51 : Inv5 s1) by (eapply step_inv5; eauto).
+      destruct (r_result s1) eqn:Er1.
+      * exists [l], s1. simpl. rewrite E, Hl. repeat split; auto; try lia. congruence.
+      * destruct (IH s1 I1 I21 I51) as (tr & s' & A & B & C & D); [lia | eapply scope_or_abort_step; eauto |].
+        exists (l :: tr), s'. simpl. rewrite E, Hl. simpl. repeat split; auto. lia.
+Qed.
+
+Lemma init_inv5 : Inv5 (init c).
+Proof. unfold Inv5. simpl. discriminate. Qed.
+
+End Prompt.
